@@ -28,7 +28,8 @@ class Harness:
     """
 
     def __init__(self, name, fn, units=(), replay=None, kind="contract", max_paths=4000, tier="quick",
-                 bounded_info=None):
+                 bounded_info=None, forced=None):
+        self.forced = forced or {}
         self.name = name
         self.fn = fn
         self.units = list(units)
@@ -54,6 +55,7 @@ def _run_one(args):
             res["wall"] = time.time() - t0
             return res
         eng = Engine(hname, max_paths=h.max_paths)
+        eng.forced_template = h.forced
 
         def wrapped(e):
             try:
